@@ -88,7 +88,7 @@ func rsJudgeTrace(trace string, startUnix, endUnix int64) rsVerdict {
 			} else {
 				v.warnings++
 			}
-		case d == "upd" || d == "unk" || d == "trunc":
+		case d == "upd" || d == "unk" || d == "trunc" || d == "gzbad":
 			v.warnings++
 		}
 	}
@@ -167,6 +167,15 @@ func rsJudgeTrace(trace string, startUnix, endUnix int64) rsVerdict {
 					fail(&v.c09, "caller %d returned %s, the result addressed to its request is %s", c, clip(val), clip(q[0]))
 				}
 				expect[c] = q[1:]
+			}
+		case "F":
+			// an injected write fault: the acknowledgement naming these ids could not be written; the client
+			// is not asked to repeat it (the property's histories have no write errors), everything else holds
+			if p[1] == "k" && len(p) >= 3 {
+				for _, id := range strings.Split(p[2], "+") {
+					u, _ := strconv.ParseUint(id, 10, 64)
+					acked[u] = true
+				}
 			}
 		case "W":
 			ns, _ := strconv.ParseInt(p[1], 10, 64)
